@@ -63,6 +63,7 @@ let runners : (string * (z list -> z list)) list = [
   "pipebuf", run_pipebuf;
   "qidx", run_qidx;
   "suspend", run_suspend;
+  "once", run_once;
 ]
 
 let () =
